@@ -52,6 +52,22 @@ fn gen_seq(r: &mut Rng, uni: &[&'static str]) -> Vec<&'static str> {
         t.extend(s.into_iter().take(8 - k.min(8)));
         s = t;
     }
+    // family `A, M, B [, tail]`: an analysis-consuming function pass, then a MODULE transform (which must make the
+    // PassManager drop the function-scoped analyses cached by A), then another consumer — all on one PassManager
+    if r.chance(1, 4) {
+        let mut pm = sway_ir::PassManager::default();
+        sway_ir::register_known_passes(&mut pm);
+        let consumers: Vec<&'static str> = transforms.iter().copied()
+            .filter(|n| pm.lookup_registered_pass(n).is_some_and(|p| p.is_function_pass() && !p.deps.is_empty())).collect();
+        let module_tf: Vec<&'static str> = transforms.iter().copied()
+            .filter(|n| pm.lookup_registered_pass(n).is_some_and(|p| p.is_module_pass())).collect();
+        if !consumers.is_empty() && !module_tf.is_empty() {
+            let mut t = vec![*r.pick(&consumers), *r.pick(&module_tf), *r.pick(&consumers)];
+            if r.chance(1, 2) { t.insert(0, sway_ir::INIT_AGGR_LOWERING_NAME); }
+            t.extend(s.into_iter().take(3));
+            s = t;
+        }
+    }
     s.truncate(8);
     s
 }
